@@ -15,7 +15,7 @@ RULES = {
     "C16": "typed headers: generated values per header type (boundary + random) written, parsed back from a guard-page buffer and via parse(string), accessors and re-written text compared; parsed messages: every header looked up under all 2^k capitalisations (k<=6 letters in quick, k<=10 in thorough; 64 sampled above). distinct = (header, value class, text hash%64) and message shapes",
     "C17": "cookies: all 128 attribute subsets x random field values written and parsed back field-wise; hand-assembled attribute orders/cases; Cookie headers with repeated names/pairs vs jar contents and iteration; mutated strings for rejection-without-crash. distinct = attribute-set/order/jar-shape classes",
     "C18": "media types: full product type x subtype x suffix (x q), random params, hand-assembled texts with vendor/extension subtypes and random letter case, invalid classes expecting HttpError 415, mutants ending after separators; all from guard-page buffers. distinct = (type,subtype,suffix,q-class,params) shapes and text hashes",
-    "C19": "addresses: all 65536 ports, random dotted quads, IPv6 in canonical/full/mixed-case forms from random 128-bit values, aliases, rejection classes named by the statement; printed form re-parsed. distinct = (class, literal hash%4096)",
+    "C19": "addresses: all 65536 ports, random dotted quads, IPv6 in canonical/full/mixed-case forms from random 128-bit values, aliases, rejection classes named by the statement; printed form re-parsed; addresses built from IP objects (four octets, eight groups, any(), loopback()) printed and parsed back. distinct = (class, literal hash%4096)",
     "C20": "base64: every length 0..600 with several contents, all 1-byte and (sampled or all) 2-byte strings vs an independent RFC 4648 encoder; credentials with arbitrary users/passwords; invalid text from exact-size heap blocks. distinct = (len%3, length, content hash) classes",
 }
 
